@@ -80,11 +80,12 @@ Proof.
   - rewrite E1. cbn. reflexivity.
 Qed.
 
+(* RecipientInfo.unpack does not rebind `reader`: the full statement, value AND the reader afterwards *)
 Lemma flow_RecipientInfo_unpack fuel cls view :
-  value_of (run_mut MW fuel k_flow_RecipientInfo_unpack [cls; VO (OReader view)])
-  = let* (k, _) := RecipientInfo_unpack view in Ok (VO (OKri k)).
+  run_mut MW fuel k_flow_RecipientInfo_unpack [cls; VO (OReader view)]
+  = let* (k, rest) := RecipientInfo_unpack view in Ok (VO (OKri k), [cls; VO (OReader rest)]).
 Proof.
-  unfold RecipientInfo_unpack, value_of. cbn.
+  unfold RecipientInfo_unpack. cbn.
   destruct (peek_header view) as [h|e]; cbn; [|reflexivity].
   step.
   destruct (t_class (h_tag h) =? c_class_context) eqn:E1; cbn; [|reflexivity].
@@ -429,3 +430,31 @@ Proof.
       by (pose proof (len_nonneg (map (fun r => VO (OKri r)) rest)); lia).
     cbn. reflexivity.
 Qed.
+
+(* ---- what CALLERS of X.unpack(reader) get: the world's mw_call_mut entry is exactly the model's pair (value, reader afterwards);
+   for the functions whose body rebinds `reader` (value-only ties above) this is where the reader the caller continues with comes
+   from: it is the model's, by definition of the world ---- *)
+Lemma call_mut_AlgorithmIdentifier_unpack view :
+  cms_call_mut "AlgorithmIdentifier.unpack" [VO (OReader view)]
+  = Some (let* (a, rest) := AlgorithmIdentifier_unpack view in Ok (VO (OAlg a), [VO (OReader rest)])).
+Proof. reflexivity. Qed.
+Lemma call_mut_OtherKeyAttribute_unpack view h :
+  cms_call_mut "OtherKeyAttribute.unpack/header" [VO (OReader view); vopt_hdr h]
+  = Some (let* (a, rest) := OtherKeyAttribute_unpack view h in Ok (VO (OOka a), [VO (OReader rest); vopt_hdr h])).
+Proof. cbn. rewrite opt_of_hdr. reflexivity. Qed.
+Lemma call_mut_KEKIdentifier_unpack view :
+  cms_call_mut "KEKIdentifier.unpack" [VO (OReader view)]
+  = Some (let* (k, rest) := KEKIdentifier_unpack view in Ok (VO (OKekId k), [VO (OReader rest)])).
+Proof. reflexivity. Qed.
+Lemma call_mut_KEKRecipientInfo_unpack view h :
+  cms_call_mut "KEKRecipientInfo.unpack/header" [VO (OReader view); vopt_hdr h]
+  = Some (let* (k, rest) := KEKRecipientInfo_unpack view h in Ok (VO (OKri k), [VO (OReader rest); vopt_hdr h])).
+Proof. cbn. rewrite opt_of_hdr. reflexivity. Qed.
+Lemma call_mut_RecipientInfo_unpack view :
+  cms_call_mut "RecipientInfo.unpack" [VO (OReader view)]
+  = Some (let* (k, rest) := RecipientInfo_unpack view in Ok (VO (OKri k), [VO (OReader rest)])).
+Proof. reflexivity. Qed.
+Lemma call_mut_EncryptedContentInfo_unpack view :
+  cms_call_mut "EncryptedContentInfo.unpack" [VO (OReader view)]
+  = Some (let* (e, rest) := EncryptedContentInfo_unpack view in Ok (VO (OEci e), [VO (OReader rest)])).
+Proof. reflexivity. Qed.
